@@ -7,7 +7,7 @@ def lockfacts_hook(ctx):
     """Cross-checks of the extraction that need the whole run: translator warnings, entry-point/field coverage, and
     direction (a) in aggregate — every flagged public entry point must have been reproduced by the race detector
     somewhere in this run (per-line it is already enforced through the `expect …` correspondence)."""
-    res = {"engine": "lockfacts", "findings": [], "stats": {"evaluations": 0, "distinct_nontrivial": 0, "rule": "facts regenerated from the source; flagged entry points vs race-detector reproductions"}}
+    res = {"engine": "lockfacts", "findings": [], "disagreements": [], "stats": {"evaluations": 0, "distinct_nontrivial": 0, "rule": "facts regenerated from the source; flagged entry points vs race-detector reproductions"}}
     p = os.path.join(ctx["root"], "gen", "lockfacts.txt")
     if not os.path.exists(p):
         res["broken"] = {"kind": "translator", "detail": "gen/lockfacts.txt missing"}
